@@ -5,8 +5,11 @@ import (
 	"io/fs"
 	"os"
 	"path/filepath"
+	"sort"
+	"strconv"
 	"strings"
 	"syscall"
+	"time"
 
 	"github.com/avfs/avfs"
 	"github.com/avfs/avfs/idm/osidm"
@@ -34,7 +37,16 @@ type world struct {
 	pristineKs, pristineVs string
 	pristineDiff           map[string]bool
 	dirtyK, dirtyV         bool
-	builds                 int
+	builds, undos          int
+
+	// internal (hook) dump of the pristine MemFS: cheap change detection
+	pristineVI string
+
+	// alt: the kernel tree currently holds the links with lexically cleaned
+	// targets (normalisation "target-cleaned"); altPristineK/altDiff belong to it
+	alt          bool
+	altPristineK []string
+	altDiff      map[string]bool
 }
 
 var upDirs = []string{"u4", "u3", "u2", "u1", "r"}
@@ -108,7 +120,12 @@ func (w *world) buildK() error {
 	}
 
 	for _, l := range w.links {
-		if err := os.Symlink(w.expand(l.Target), w.linkPath(l)); err != nil {
+		t := w.expand(l.Target)
+		if w.alt {
+			t = filepath.Clean(t)
+		}
+
+		if err := os.Symlink(t, w.linkPath(l)); err != nil {
 			return err
 		}
 	}
@@ -183,6 +200,8 @@ func (w *world) dumpV(mtime bool) []string {
 func (w *world) setup(links []Link, mode int) (avfsSetup fsx.Res, structural []string, err error) {
 	w.links = links
 	w.mode = mode
+	w.alt = false
+	w.altPristineK, w.altDiff = nil, nil
 
 	if err := w.buildK(); err != nil {
 		return fsx.Res{}, nil, fmt.Errorf("kernel-side build: %v", err)
@@ -197,6 +216,7 @@ func (w *world) setup(links []Link, mode int) (avfsSetup fsx.Res, structural []s
 	w.pristineV = w.dumpV(false)
 	w.pristineKs = strings.Join(w.pristineK, "\n")
 	w.pristineVs = strings.Join(w.pristineV, "\n")
+	w.pristineVI = w.internalDump()
 	w.pristineDiff = map[string]bool{}
 
 	for _, d := range treeDiff(w.pristineK, w.pristineV, "") {
@@ -234,8 +254,61 @@ func (w *world) setMode(mode int) error {
 	return nil
 }
 
+// internalDump is the injected hook's dump of the MemFS node graph (no
+// mtimes): used only to detect that a failed call changed nothing.
+func (w *world) internalDump() string {
+	s := ""
+
+	if k, msg := fsx.Guard(func() { s = strings.Join(w.v.(*memfs.MemFS).VerifDump(), "\n") }); k != "" {
+		return "!" + k + " " + msg
+	}
+
+	return s
+}
+
+// hasUncleanTargets reports whether lexical cleaning changes a link target.
+func (w *world) hasUncleanTargets() bool {
+	for _, l := range w.links {
+		if t := w.expand(l.Target); filepath.Clean(t) != t {
+			return true
+		}
+	}
+
+	return false
+}
+
+// useAlt switches the kernel tree between the verbatim and the cleaned link
+// targets (pristine afterwards).
+func (w *world) useAlt(alt bool) error {
+	if w.alt == alt && !w.dirtyK {
+		return nil
+	}
+
+	w.alt = alt
+
+	if err := w.buildK(); err != nil {
+		return fmt.Errorf("kernel-side rebuild: %v", err)
+	}
+
+	if alt && w.altPristineK == nil {
+		w.altPristineK = w.dumpK(false)
+		w.altDiff = map[string]bool{}
+
+		for _, d := range treeDiff(w.altPristineK, w.pristineV, "") {
+			w.altDiff[d] = true
+		}
+	}
+
+	return nil
+}
+
 // restore brings both sides back to the pristine configuration.
 func (w *world) restore() error {
+	if w.alt {
+		w.alt = false
+		w.dirtyK = true
+	}
+
 	if w.dirtyK {
 		if err := w.buildK(); err != nil {
 			return fmt.Errorf("kernel-side rebuild: %v", err)
@@ -339,13 +412,31 @@ var ddRank = map[string]int{"none": 0, "after-dir": 1, "after-missing": 2, "afte
 // follows (a ".." after anything but a real directory cannot be removed
 // lexically).
 func (w *world) classifyPath(mode int, comps []string) (via, dd string) {
-	via, dd = "none", "none"
 	prefix := w.R
 
 	if mode == 2 {
 		prefix = w.R + "/d"
 	}
 
+	return classifyFrom(prefix, comps)
+}
+
+// classifyAbs classifies an absolute path below BASE.
+func (w *world) classifyAbs(p string) (via, dd, final string) {
+	rel := strings.TrimPrefix(strings.TrimPrefix(p, w.base), "/")
+
+	var comps []string
+	if rel != "" {
+		comps = strings.Split(rel, "/")
+	}
+
+	via, dd = classifyFrom(w.base, comps)
+
+	return via, dd, finalClass(fsx.Do(w.k, fsx.Call{Op: "Lstat", A: p}), fsx.Do(w.k, fsx.Call{Op: "Stat", A: p}))
+}
+
+func classifyFrom(prefix string, comps []string) (via, dd string) {
+	via, dd = "none", "none"
 	prev := "dir"
 
 	for i, c := range comps {
@@ -458,4 +549,152 @@ func kernelVersion() string {
 	}
 
 	return string(b)
+}
+
+// undoK reverts the effect of a successful kernel-side call from the dump kd
+// taken right after it, when the effect is a change of attributes or content
+// of existing entries (chmod, chown, truncate, utimes) and/or the creation of
+// new entries (mkdir, link): cheaper than rebuilding the tree. It returns
+// false when a full rebuild is needed (entries disappeared or changed type).
+// The result is verified against the pristine dump once per configuration.
+func (w *world) undoK(kd []string) bool {
+	pr := w.pristineK
+	if w.alt {
+		pr = w.altPristineK
+	}
+
+	pm := make(map[string]lineInfo, len(pr))
+
+	for _, l := range pr {
+		p, li, ok := parseLine(l)
+		if !ok || strings.HasPrefix(li.typ, "!") {
+			return false
+		}
+
+		pm[p] = li
+	}
+
+	real := func(p string) string {
+		if p == "." {
+			return w.base
+		}
+
+		return w.base + "/" + p
+	}
+
+	var added []string
+
+	type fix struct {
+		p    string
+		a, b lineInfo // after, before
+	}
+
+	var fixes []fix
+
+	seen := 0
+
+	for _, l := range kd {
+		p, li, ok := parseLine(l)
+		if !ok || strings.HasPrefix(li.typ, "!") {
+			return false
+		}
+
+		b, ok := pm[p]
+		if !ok {
+			added = append(added, p)
+
+			continue
+		}
+
+		seen++
+
+		if b.typ != li.typ {
+			return false
+		}
+
+		if li.typ == "l" && li.rest != b.rest {
+			return false
+		}
+
+		fixes = append(fixes, fix{p, li, b})
+	}
+
+	if seen != len(pm) {
+		return false // something disappeared
+	}
+
+	// new entries first, deepest first (restores link counts and classes)
+	sort.Sort(sort.Reverse(sort.StringSlice(added)))
+
+	for _, p := range added {
+		if err := os.Remove(real(p)); err != nil {
+			return false
+		}
+	}
+
+	old := fsx.FixedTime.Add(-1000 * time.Second)
+
+	for _, f := range fixes {
+		rp := real(f.p)
+
+		if (f.a.nlink != f.b.nlink || f.a.class != f.b.class) && len(added) == 0 {
+			return false
+		}
+
+		if f.a.rest != f.b.rest || f.a.size != f.b.size {
+			if f.a.typ != "f" {
+				return false
+			}
+
+			c, err := strconv.Unquote(f.b.rest)
+			if err != nil {
+				return false
+			}
+
+			if err := os.WriteFile(rp, []byte(c), 0o644); err != nil {
+				return false
+			}
+		}
+
+		if f.a.owner != f.b.owner {
+			var uid, gid int
+			if _, err := fmt.Sscanf(f.b.owner, "%d:%d", &uid, &gid); err != nil {
+				return false
+			}
+
+			if err := os.Lchown(rp, uid, gid); err != nil {
+				return false
+			}
+		}
+
+		if f.a.perm != f.b.perm {
+			if f.a.typ == "l" {
+				return false
+			}
+
+			m, err := strconv.ParseUint(f.b.perm, 8, 32)
+			if err != nil {
+				return false
+			}
+
+			if err := os.Chmod(rp, fsx.UnixMode(uint32(m))); err != nil {
+				return false
+			}
+		}
+
+		if f.a.mtime == fixedMtime {
+			if f.a.typ == "l" {
+				return false
+			}
+
+			if err := os.Chtimes(rp, old, old); err != nil {
+				return false
+			}
+		}
+	}
+
+	w.dirtyK = false
+	w.undos++
+
+	return true
 }
